@@ -293,12 +293,22 @@ class Algebra:
         if d.is_const():
             n = n.scale(1 / d.const_value())
             d = Poly.const(1)
-        # pull out perfect-square monomial factors? keep simple: one atom
-        atom = ("Q", tuple(sorted(n.t.items(), key=repr)), tuple(sorted(d.t.items(), key=repr)))
-        return Rat(Poly.atom(atom))
+            atom = ("Q", tuple(sorted(n.t.items(), key=repr)), tuple(sorted(d.t.items(), key=repr)))
+            return Rat(Poly.atom(atom))
+        # sqrt(n/d) = sqrt(n*d)/d  (d > 0 on the domain of the formulas analysed): keeps
+        # the radicand polynomial, so that sqrt(.)^2 reduces
+        nd = self.reduce(n * d)
+        atom = ("Q", tuple(sorted(nd.t.items(), key=repr)), tuple(sorted(Poly.const(1).t.items(), key=repr)))
+        return Rat(Poly.atom(atom), d)
 
     # -- trig
     def _trig(self, name, arg):
+        if arg[0] == "call" and arg[1] == "atan" and len(arg) == 3:
+            # sin(atan x) = x/sqrt(1+x^2), cos(atan x) = 1/sqrt(1+x^2)
+            x = self.rat(arg[2])
+            q = self._sqrt(Rat(Poly.const(1)) + x * x)
+            s_, c_ = x * q.inv(), q.inv()
+            return s_ if name == "sin" else c_ if name == "cos" else x
         comps = self.angle_components(arg)
         s, c = self.sincos_sum(comps)
         if name == "sin":
